@@ -350,6 +350,8 @@ class Interp:
                 return ("top",)
             if rv.get("ak") == "tuple":
                 return ("tuple", tuple(ops))
+            if rv.get("ak") == "closure" and rv.get("fn"):
+                return ("closure", rv["fn"], tuple(ops))
             return ("top",)
         return ("top",)
 
@@ -383,6 +385,36 @@ class Interp:
                 if a0[1] == 0:
                     return d
                 return vjoin(a0[2], d)
+            if short in ("is_some_and", "is_none_or", "map", "map_or", "and_then", "filter") and len(args) >= 2:
+                clo = args[-1]
+                cb = self.unit.body(clo[1]) if clo[0] == "closure" else None
+                if cb is None or depth >= self.max_depth:
+                    return ("top",)
+                if a0[1] == 0:
+                    # the closure is not called
+                    if short == "is_some_and":
+                        return ("bool", 0)
+                    if short == "is_none_or":
+                        return ("bool", 1)
+                    if short == "map_or":
+                        return args[1]
+                    return opt(0, None)
+                res = self.run(cb, [clo, a0[2] if a0[2] is not None else ("top",)], st["H"], depth + 1)
+                if res == "diverge":
+                    return "diverge" if a0[1] == 1 else ("top",)
+                if short == "is_some_and" and res[0] == "bool":
+                    return ("bool", band(a0[1], res[1]))
+                if short == "is_none_or" and res[0] == "bool":
+                    return ("bool", bor(bnot(a0[1]), res[1]))
+                if short == "map":
+                    return opt(a0[1], res)
+                if short == "map_or":
+                    return res if a0[1] == 1 else vjoin(res, args[1])
+                if short == "and_then" and res[0] == "opt":
+                    return opt(band(a0[1], res[1]), res[2])
+                if short == "filter" and res[0] == "bool":
+                    return opt(band(a0[1], res[1]), a0[2])
+                return ("top",)
             if short == "is_some":
                 return ("bool", a0[1])
             if short == "is_none":
